@@ -418,6 +418,18 @@ def suite_prim_grid(ck, judge=True):
             ck.sample({'ty': irt, 'value': v, 'real': list(real)})
 
 
+def _as_built(ses, v):
+    """A struct / union value is handed to the real code as an object built through the public constructors and
+    setters, which normalise what they store (an int in a float member becomes a float, at any depth). The model and
+    the oracle must be given the value that object holds, not the generator's description of it."""
+    if v[0] not in 'SU':
+        return v
+    built = outcome(lambda: ses.codec.build_checked(v))
+    if built[0] != 'ok':
+        return v
+    return ses.codec.to_tagged(built[1])
+
+
 def suite_assign(ck, sessions, n_values, judge=True):
     """setattr / getattr / del on generated struct instances, union constructors: real vs model,
     and (judge) real vs the reference predicate."""
@@ -438,6 +450,7 @@ def suite_assign(ck, sessions, n_values, judge=True):
                         if vals:
                             vals += invalidate(ses.gen, f.data_type, vals[0])[:n_values + 2]
                         vals.append(ses.gen.junk())
+                        vals = [_as_built(ses, v) for v in vals]
                         for v in vals:
                             ops.append({'op': 'rt.set', 'obj': ['S', ref, []], 'field': f.name, 'v': v})
                             meta.append(('set', ref, dt, f, v))
@@ -452,6 +465,7 @@ def suite_assign(ck, sessions, n_values, judge=True):
                     if vals and not isinstance(f.data_type, Void):
                         vals += invalidate(ses.gen, f.data_type, vals[0])[:n_values + 1]
                     vals.append(ses.gen.junk())
+                    vals = [_as_built(ses, v) for v in vals]
                     for v in vals:
                         ops.append({'op': 'rt.mkunion', 'cls': ref, 'tag': f.name, 'v': v})
                         meta.append(('mk', ref, dt, f, v))
